@@ -39,7 +39,7 @@ EXHAUSTIVE = {"quick": "all expression trees of depth <= 2 over leaves {a,b,2}, 
 CASE_LIMIT_S = 30.0
 
 BINOPS = ["+", "-", "*", "/", "^", "<", ">"]
-LITS = ["0", "1", "2", "3", "10", "0.5", "2.5"]
+LITS = ["0", "1", "2", "3", "10", "0.5", "2.5", ".5", ".25"]
 NAMES = ["a", "b", "s"]
 VIRTUAL = ["x", "y", "z", "t", "idx"]
 VALS = [0.0, 1.0, -2.0, 3.0, 0.5]
@@ -65,6 +65,8 @@ def chunks(tier, seed):
     out.append({"kind": "minmax", "key": "minmax", "n": 600 if tier == "quick" else 8000})
     for k in range(2):
         out.append({"kind": "divzero", "key": "divzero%d" % k, "n": 300 if tier == "quick" else 4000})
+    # one very long track (tens of thousands of observations): thresholds far beyond the sizes of the other chunks
+    out.append({"kind": "giant", "key": "giant", "n": 2 if tier == "quick" else 6})
     return out
 
 
@@ -446,6 +448,14 @@ def _cases(chunk):
             yield {"kind": "minmax", "v": v, "fn": rng.choice(["MIN", "MAX"] if i % 2 else
                                                                ["SUM", "AVG", "VAR", "STD", "MSE", "RMSE", "MAD", "MEDIAN"]),
                    "route": rng.choice(["expr", "expr", "opobj", "sub"])}
+    elif kind == "giant":
+        for i in range(chunk["n"]):
+            m = rng.choice([24, 30, 36])
+            pat = [rng.choice(VALS + [2.5, -0.5, 7.0]) for _ in range(m)]
+            if i % 2 == 0:
+                pat[rng.randrange(1, m - 1)] = float("nan")
+            yield {"kind": "giant", "pattern": pat, "copies": rng.choice([2001, 1700]) if i % 2 == 0 else 350,
+                   "limit_x": 6}
     elif kind == "divzero":
         # feature / feature where the denominator holds zeros (also 0/0): the value there is undefined and not judged,
         # but the evaluation must return, and every OTHER observation must hold the ordinary quotient
@@ -1003,6 +1013,55 @@ def run_opobj(case, ctx):
     return held(sig, True, sorted(cls))
 
 
+def run_giant(case, ctx):
+    """A feature that is k copies of a short pattern (NaN included), on a track of tens of thousands of observations:
+    every aggregate that depends on the multiset of values only in proportion (AVG, VAR, STD, MSE, RMSE, MIN, MAX) must
+    give what it gives on ONE copy of the pattern, SUM k times that, and 'a-AVG{a}' the pattern minus that mean at every
+    observation -- whatever the NaN policy.  No oracle for the values is needed."""
+    pat, k = case["pattern"], case["copies"]
+    m = len(pat)
+    small = gen.make_track([(float(i), 0.0, 0.0) for i in range(m)], times_ms=[86400000 + 1000 * i for i in range(m)])
+    small.createAnalyticalFeature("a", list(pat))
+    n = m * k
+    big = gen.make_track([(float(i % 977), 0.0, 0.0) for i in range(n)], times_ms=[86400000 + 1000 * i for i in range(n)])
+    big.createAnalyticalFeature("a", list(pat) * k)
+    sig = ("giant", k, tuple(map(repr, pat)))
+    cls = ["track_of_tens_of_thousands_of_observations", "nan_in_pattern" if any(v != v for v in pat) else "nan_free_pattern"]
+
+    def scalar(tr, text):
+        r = M.call(tr.operate, text)
+        if M.is_raised(r):
+            return r
+        try:
+            lst = list(r)
+        except TypeError:
+            return r
+        return lst[0] if lst and all(M.feq(x, lst[0], 0, 0) for x in lst) else lst
+    for fn, scale in (("AVG", 1), ("SUM", k), ("VAR", 1), ("STD", 1), ("MSE", 1), ("RMSE", 1), ("MIN", 1), ("MAX", 1)):
+        a, b = scalar(small, "%s{a}" % fn), scalar(big, "%s{a}" % fn)
+        ctx.monitor("giant.aggregate_of_k_copies")
+        if M.is_raised(a) and M.is_raised(b):
+            continue
+        ok = (not M.is_raised(a)) and (not M.is_raised(b)) and not isinstance(a, list) and not isinstance(b, list) \
+            and M.feq(b, a * scale, 1e-7, 1e-9)
+        if not ok:
+            return violated({"what": "%s over %d copies of a pattern is not %s over one copy%s" % (
+                fn, k, fn, " times the number of copies" if scale != 1 else ""), "pattern": pat, "copies": k,
+                "on_one_copy": a, "on_the_long_track": b}, sig, True, cls)
+    a, b = M.call(small.operate, "a-AVG{a}"), M.call(big.operate, "a-AVG{a}")
+    ctx.monitor("giant.aggregate_of_k_copies")
+    if M.is_raised(a) != M.is_raised(b):
+        return violated({"what": "'a-AVG{a}' fails on one of the two tracks only", "pattern": pat, "copies": k,
+                         "on_one_copy": a, "on_the_long_track": b}, sig, True, cls)
+    if not M.is_raised(a):
+        la, lb = list(a), list(b)
+        bad = [i for i in range(0, n, 97) if not M.feq(lb[i], la[i % m], 1e-7, 1e-9)]
+        if len(lb) != n or bad:
+            return violated({"what": "'a-AVG{a}' on k copies of a pattern differs from the same expression on one copy",
+                             "pattern": pat, "copies": k, "first_bad_index": bad[:3], "on_one_copy": la}, sig, True, cls)
+    return held(sig, True, cls)
+
+
 def run_minmax(case, ctx):
     """MIN / MAX of a feature holding NaN, for every rotation of the value vector: one answer (see order_independence)."""
     from tracklib.core.operators import Operator
@@ -1084,6 +1143,8 @@ def run_case(case, ctx):
         return run_divzero(case, ctx)
     if case["kind"] == "minmax":
         return run_minmax(case, ctx)
+    if case["kind"] == "giant":
+        return run_giant(case, ctx)
     return run_opobj(case, ctx)
 
 
@@ -1093,7 +1154,7 @@ def classify(case, witness):
 
 # floors for the call-history workloads added in session 3 (a run in which they were silently skipped is inconclusive)
 _floors_base = floors
-_FLOORS_EXTRA = {'classes': {'nan_in_minmax': 200, 'nan_in_symmetric_aggregate': 150, 'division_by_a_feature_holding_zeros': 500, 'repeated_function_term': 1000, 'externals_dictionary': 500, 'realistic_magnitudes': 800, 'related_track_must_stay_untouched': 1000,
+_FLOORS_EXTRA = {'classes': {'nan_in_minmax': 200, 'track_of_tens_of_thousands_of_observations': 2, 'nan_in_symmetric_aggregate': 150, 'division_by_a_feature_holding_zeros': 500, 'repeated_function_term': 1000, 'externals_dictionary': 500, 'realistic_magnitudes': 800, 'related_track_must_stay_untouched': 1000,
                              'less_usual_feature_names': 5000, 'copy_taken_after_the_first_statement': 800, 'track_of_hundreds_of_observations': 300}}
 
 
